@@ -20,6 +20,7 @@ RULE = (
     '(wiski_fantasy) prior mean zero/non-zero x depth; (interp) dimension x grid sizes; (convergence) kernel x dimension; distinct = cell without '
     'seed; non-trivial iff the structured result differs from a diagonal/identity matrix (always for n>=2)'
     '; pass 5: index-kernel diagonals with one / two index vectors (diag=True, lazy diagonal, Hadamard product); structured strategies under fixed and fixed+learned observation noise'
+    '; pass 6: batched KISS-GP / SGPR / RFF models; Nystrom cells with inducing points at training inputs; interpolation over the whole grid range incl. the first / last cells (nearest-node rule) and the boundary nodes'
 )
 REQUIRED = ["multitask_kron", "index_kernel", "lcm_kernel", "grid_kernel_dense", "kiss_kernel_WKW", "nystrom", "rff_features", "strategy_equals_dense_conditional", "sgpr_titsias_bound", "sgpr_predictive_equations",
             "wiski_fantasy", "interp_sum_to_one", "interp_exact_at_nodes", "interp_reproduces_quadratics", "interp_matrix_equals_tensor_product", "kiss_converges", "path:InterpolatedPredictionStrategy.exact_prediction", "path:SGPRPredictionStrategy.exact_prediction"]
